@@ -952,7 +952,7 @@ End MergeComb.
 (* ================================================================== *)
 (** * 4. following:: and preceding:: (Sibling = false): list level *)
 
-Definition zero_lvl (it : item) : item := mkItem (it_node it) (it_pos it) 0.
+(* zero_lvl / zero_item: Eval.v *)
 
 Section DocAxesList.
 Variable D : tree.
@@ -967,7 +967,7 @@ Definition lfol_raw (n : node) : list item :=
    end)
   ++ flat_map (fun a => flat_map (fun s => ldesc D test true s) (following_siblings D a))
               (self_and_ancestors n).
-Definition lfol (n : node) : list item := map zero_lvl (lfol_raw n).
+Definition lfol (n : node) : list item := zero_lvl (lfol_raw n).
 
 (* Eval.step_preceding with the test abstract *)
 Definition lpre (n : node) : list item :=
@@ -1105,8 +1105,8 @@ Definition FR (x : node) : list item := FRg SD x.
 
 Definition DocHead (nd : node) (q : option (bool * desc_st nat)) (hd : list item) : Prop :=
   match q with
-  | None => hd = map zero_lvl (FR nd)
-  | Some (self, qs) => exists b L, RepInner self nd b qs L /\ hd = map zero_lvl (L ++ FR nd)
+  | None => hd = zero_lvl (FR nd)
+  | Some (self, qs) => exists b L, RepInner self nd b qs L /\ hd = zero_lvl (L ++ FR nd)
   end.
 
 Definition fol_run_post (r0 : option (option node * node * option (bool * desc_st nat) * nat))
@@ -1119,37 +1119,37 @@ Definition fol_run_post (r0 : option (option node * node * option (bool * desc_s
 
 Lemma fol_run_go : forall k nd1 self qs posit b L rest,
   RepInner self nd1 b qs L ->
-  (L = [] -> fol_run_post (fol_doc_run D test k nd1 None posit) posit (map zero_lvl rest)) ->
+  (L = [] -> fol_run_post (fol_doc_run D test k nd1 None posit) posit (zero_lvl rest)) ->
   rest = FR nd1 ->
   fol_run_post
     (match inner_desc_select D self test qs nd1 with
      | Stuck => None
      | R (Some n) qs' _ => Some (Some n, nd1, Some (self, qs'), d_posit qs')
      | R None _ _ => fol_doc_run D test k nd1 None posit
-     end) posit (map zero_lvl (L ++ rest)).
+     end) posit (zero_lvl (L ++ rest)).
 Proof.
   intros k nd1 self qs posit b L rest HR Hnil ->. pose proof (inner_step self nd1 b qs L HR) as HS.
   destruct L as [|it r].
   - destruct HS as (qs' & cur' & E). rewrite E. cbn [app]. apply Hnil. reflexivity.
-  - destruct HS as (qs' & cur' & E & Hp & HR'). rewrite E. cbn [app map fol_run_post zero_lvl it_node it_pos it_lvl].
+  - destruct HS as (qs' & cur' & E & Hp & HR'). rewrite E. cbn [app map fol_run_post zero_lvl zero_item it_node it_pos it_lvl].
     exists nd1, (Some (self, qs')). rewrite Hp. repeat split; auto.
     cbn [DocHead]. exists false, r. auto.
 Qed.
 
 Lemma fol_run_none : forall fuel nd posit, nsub nd < fuel ->
-  fol_run_post (fol_doc_run D test fuel nd None posit) posit (map zero_lvl (FR nd)).
+  fol_run_post (fol_doc_run D test fuel nd None posit) posit (zero_lvl (FR nd)).
 Proof.
   induction fuel as [|k IH]; intros nd posit Hn; [lia|]. cbn [fol_doc_run].
   pose proof (fol_advance_spec (climb_fuel nd) nd (depth_lt_climb nd)) as HA.
   destruct (fol_advance D (climb_fuel nd) nd) as [|nd'|s]; [destruct HA| |].
-  - unfold FR. rewrite (HA _ SD). cbn [map fol_run_post]. eauto.
+  - unfold FR. rewrite (HA _ SD). cbn [zero_lvl map fol_run_post]. eauto.
   - unfold FR at 1. rewrite (HA _ SD). fold (FR s).
     apply (fol_run_go k s true inner_desc_init posit true (SD s) (FR s) (inner_init_Rep true s)); [|reflexivity].
     intros _. apply IH. unfold nsub in *. rewrite (HA _ (fun s => [s])) in Hn. cbn [app List.length] in Hn. lia.
 Qed.
 
 Lemma fol_run_some : forall fuel nd self qs posit b L, RepInner self nd b qs L -> S (nsub nd) < fuel ->
-  fol_run_post (fol_doc_run D test fuel nd (Some (self, qs)) posit) posit (map zero_lvl (L ++ FR nd)).
+  fol_run_post (fol_doc_run D test fuel nd (Some (self, qs)) posit) posit (zero_lvl (L ++ FR nd)).
 Proof.
   intros fuel nd self qs posit b L HR Hn. destruct fuel as [|k]; [lia|]. cbn [fol_doc_run].
   apply (fol_run_go k nd self qs posit b L (FR nd) HR); [|reflexivity].
@@ -2228,9 +2228,6 @@ End ProtocolGlobal2.
 
 From XP.Proofs Require Import Filter.
 
-Lemma nodes_of_zero_lvl : forall l, nodes_of (map zero_lvl l) = nodes_of l.
-Proof. intros l. unfold nodes_of. rewrite map_map. reflexivity. Qed.
-
 Lemma over_nodes : forall f l1 l2, nodes_of l1 = nodes_of l2 -> over f l1 = over f l2.
 Proof.
   intros f l1 l2 H. unfold over.
@@ -2260,18 +2257,6 @@ Notation EVAL := (eval D has_ns hc rm rn rr).
 Notation MT := (match_test D has_ns).
 Notation LSEL := (lsel2 D hc MT).
 
-(* Eval.v gives the items of following:: (Sibling = false) the depth of the
-   inner descendant walk as it_lvl; in Go followingQuery has no depth() method,
-   so getNodeDepth is 0.  Nothing but a filter DIRECTLY over such a step looks
-   at it_lvl. *)
-Definition fol_doc (q : qconfig2) : bool :=
-  match q with C2Following false _ _ => true | _ => false end.
-Definition norm (q : qconfig2) (l : list item) : list item :=
-  if fol_doc q then map zero_lvl l else l.
-
-Lemma nodes_of_norm : forall q l, nodes_of (norm q l) = nodes_of l.
-Proof. intros q l. unfold norm. destruct (fol_doc q); [apply nodes_of_zero_lvl|reflexivity]. Qed.
-
 Inductive corr2 : qconfig2 -> query -> Prop :=
 | corr2_ctx : corr2 C2Context QContext
 | corr2_abs : corr2 C2Absolute QAbsolute
@@ -2280,7 +2265,7 @@ Inductive corr2 : qconfig2 -> query -> Prop :=
 | corr2_self : forall t i I, corr2 i I -> corr2 (C2Self t i) (QSelf t I)
 | corr2_parent : forall t i I, corr2 i I -> corr2 (C2Parent t i) (QParent t I)
 | corr2_desc : forall self t i I, corr2 i I -> corr2 (C2Descendant self t i) (QDescendant self t I)
-| corr2_filter : forall np pred i I P, corr2 i I -> fol_doc i = false ->
+| corr2_filter : forall np pred i I P, corr2 i I ->
     (forall n v pos, EVAL P n = Val v -> pred n pos = truth_of_filter v pos) ->
     corr2 (C2Filter np pred i) (QFilter np I P)
 | corr2_fol : forall sb t i I, corr2 i I -> corr2 (C2Following sb t i) (QFollowing sb t I)
@@ -2292,8 +2277,13 @@ Inductive corr2 : qconfig2 -> query -> Prop :=
 
 Lemma corr2_embed : forall q Q, corr D has_ns hc rm rn rr q Q -> corr2 (embed q) Q.
 Proof.
-  intros q Q H. induction H; cbn [embed]; try (constructor; assumption).
-  constructor; [assumption| |assumption]. destruct i; reflexivity.
+  intros q Q H. induction H; cbn [embed]; constructor; assumption.
+Qed.
+
+Lemma corr2_pred_of : forall np i I P, corr2 i I ->
+  corr2 (C2Filter np (pred_of D has_ns hc rm rn rr P) i) (QFilter np I P).
+Proof.
+  intros np i I P H. constructor; [exact H|]. intros n v pos E. unfold pred_of. rewrite E. reflexivity.
 Qed.
 
 Lemma lanc_all_eq : forall self t inputs seen,
@@ -2318,62 +2308,59 @@ Proof.
     rewrite nodes_of_app. reflexivity.
 Qed.
 
-Theorem lsel2_sel : forall q Q, corr2 q Q -> forall c l, SEL Q c = Val l -> LSEL q c = norm q l.
+Theorem lsel2_sel : forall q Q, corr2 q Q -> forall c l, SEL Q c = Val l -> LSEL q c = l.
 Proof.
   intros q Q H.
   induction H as [| |t i I H IH|t i I H IH|t i I H IH|t i I H IH|self t i I H IH
-                  |np pred i I P H IH Hfd HP|sb t i I H IH|sb t i I H IH|self t i I H IH|i I H IH
+                  |np pred i I P H IH HP|sb t i I H IH|sb t i I H IH|self t i I H IH|i I H IH
                   |l r L R0 Hl IHl Hr IHr|i ch I CH Hi IHi Hc IHc];
-    intros c l0 E; unfold norm; cbn [fol_doc].
+    intros c l0 E.
   - cbn in E. inversion E. reflexivity.
   - cbn in E. inversion E. reflexivity.
   - change (SEL (QChild t I) c) with (do x <- SEL I c; Val (over (lchild D (MT t)) x)) in E.
     apply obind_val_inv' in E. destruct E as (x & E0 & E). inversion E; subst.
-    cbn [lsel2]. apply over_nodes. rewrite (IH c x E0). apply nodes_of_norm.
+    cbn [lsel2]. rewrite (IH c x E0). reflexivity.
   - change (SEL (QAttribute t I) c) with (do x <- SEL I c; Val (over (lattr D (MT t)) x)) in E.
     apply obind_val_inv' in E. destruct E as (x & E0 & E). inversion E; subst.
-    cbn [lsel2]. apply over_nodes. rewrite (IH c x E0). apply nodes_of_norm.
+    cbn [lsel2]. rewrite (IH c x E0). reflexivity.
   - change (SEL (QSelf t I) c) with (do x <- SEL I c; Val (over (lself (MT t)) x)) in E.
     apply obind_val_inv' in E. destruct E as (x & E0 & E). inversion E; subst.
-    cbn [lsel2]. apply over_nodes. rewrite (IH c x E0). apply nodes_of_norm.
+    cbn [lsel2]. rewrite (IH c x E0). reflexivity.
   - change (SEL (QParent t I) c) with (do x <- SEL I c; Val (over (lparent (MT t)) x)) in E.
     apply obind_val_inv' in E. destruct E as (x & E0 & E). inversion E; subst.
-    cbn [lsel2]. apply over_nodes. rewrite (IH c x E0). apply nodes_of_norm.
+    cbn [lsel2]. rewrite (IH c x E0). reflexivity.
   - change (SEL (QDescendant self t I) c) with (do x <- SEL I c; Val (over (ldesc D (MT t) self) x)) in E.
     apply obind_val_inv' in E. destruct E as (x & E0 & E). inversion E; subst.
-    cbn [lsel2]. apply over_nodes. rewrite (IH c x E0). apply nodes_of_norm.
+    cbn [lsel2]. rewrite (IH c x E0). reflexivity.
   - rewrite sel_filter in E. apply obind_val_inv' in E. destruct E as (x & E0 & E).
-    cbn [lsel2]. rewrite (IH c x E0). unfold norm. rewrite Hfd.
-    eapply lfilter_filter_go; eassumption.
+    cbn [lsel2]. rewrite (IH c x E0). eapply lfilter_filter_go; eassumption.
   - destruct sb.
     + change (SEL (QFollowing true t I) c) with (do x <- SEL I c; Val (over (lfsib D (MT t)) x)) in E.
       apply obind_val_inv' in E. destruct E as (x & E0 & E). inversion E; subst.
-      cbn [lsel2]. apply over_nodes. rewrite (IH c x E0). apply nodes_of_norm.
-    + change (SEL (QFollowing false t I) c)
-        with (do x <- SEL I c; Val (over (lfol_raw D (MT t)) x)) in E.
+      cbn [lsel2]. rewrite (IH c x E0). reflexivity.
+    + change (SEL (QFollowing false t I) c) with (do x <- SEL I c; Val (over (lfol D (MT t)) x)) in E.
       apply obind_val_inv' in E. destruct E as (x & E0 & E). inversion E; subst.
-      cbn [lsel2]. rewrite (over_nodes _ _ x); [|rewrite (IH c x E0); apply nodes_of_norm].
-      unfold over, lfol. apply map_flat_map.
+      cbn [lsel2]. rewrite (IH c x E0). reflexivity.
   - destruct sb.
     + change (SEL (QPreceding true t I) c) with (do x <- SEL I c; Val (over (lpsib (MT t)) x)) in E.
       apply obind_val_inv' in E. destruct E as (x & E0 & E). inversion E; subst.
-      cbn [lsel2]. apply over_nodes. rewrite (IH c x E0). apply nodes_of_norm.
+      cbn [lsel2]. rewrite (IH c x E0). reflexivity.
     + change (SEL (QPreceding false t I) c) with (do x <- SEL I c; Val (over (lpre D (MT t)) x)) in E.
       apply obind_val_inv' in E. destruct E as (x & E0 & E). inversion E; subst.
-      cbn [lsel2]. apply over_nodes. rewrite (IH c x E0). apply nodes_of_norm.
+      cbn [lsel2]. rewrite (IH c x E0). reflexivity.
   - change (SEL (QAncestor self t I) c)
       with (do x <- SEL I c; Val (unnumbered (ancestors_all D has_ns hc self t [] (nodes_of x)))) in E.
     apply obind_val_inv' in E. destruct E as (x & E0 & E). inversion E; subst.
-    cbn [lsel2]. rewrite (IH c x E0), nodes_of_norm, lanc_all_eq. reflexivity.
+    cbn [lsel2]. rewrite (IH c x E0), lanc_all_eq. reflexivity.
   - change (SEL (QGroup I) c) with (do x <- SEL I c; Val (regroup 1 x)) in E.
     apply obind_val_inv' in E. destruct E as (x & E0 & E). inversion E; subst.
-    cbn [lsel2]. apply regroup_nodes. rewrite (IH c x E0). apply nodes_of_norm.
+    cbn [lsel2]. rewrite (IH c x E0). reflexivity.
   - change (SEL (QUnion L R0) c)
       with (do a <- SEL L c; do b <- SEL R0 c;
             Val (unnumbered (fst (dedup_hash hc [] (nodes_of a ++ nodes_of b))))) in E.
     apply obind_val_inv' in E. destruct E as (a & Ea & E).
     apply obind_val_inv' in E. destruct E as (b & Eb & E). inversion E; subst.
-    cbn [lsel2]. rewrite (IHl c a Ea), (IHr c b Eb), !nodes_of_norm. reflexivity.
+    cbn [lsel2]. rewrite (IHl c a Ea), (IHr c b Eb). reflexivity.
   - change (SEL (QMerge I CH) c)
       with (do roots <- SEL I c; do x <- oflat_map (fun it => SEL CH (it_node it)) roots;
             Val (unnumbered (nodes_of x))) in E.
@@ -2381,39 +2368,42 @@ Proof.
     apply obind_val_inv' in E. destruct E as (x & Ex & E). inversion E; subst.
     cbn [lsel2]. f_equal.
     rewrite <- (flat_map_map' (fun n => nodes_of (LSEL ch n)) it_node (LSEL i c)).
-    fold (nodes_of (LSEL i c)). rewrite (IHi c roots Er), nodes_of_norm.
+    fold (nodes_of (LSEL i c)). rewrite (IHi c roots Er).
     apply (oflat_map_nodes ch CH); [|exact Ex].
-    intros n ln En. rewrite (IHc n ln En). apply nodes_of_norm.
+    intros n ln En. rewrite (IHc n ln En). reflexivity.
 Qed.
 
-(** ** MAIN: the refinement theorem for all modelled query types.
-    [norm q l] is l, except that for a top-level following:: (Sibling = false)
-    step the levels are 0. *)
+(** ** MAIN: the refinement theorem for all modelled query types:
+    a fresh M1 query driven by repeated Select calls returns exactly the items
+    (node, position(), depth()) of the list-level model, then nil; the same
+    nodes when the driver is NodeIterator.MoveNext. *)
 Theorem m1_refines_list2 : forall q Q c l F n,
   corr2 q Q -> SEL Q c = Val l ->
   need2 D hc MT q c <= F -> List.length l < n ->
-  drain_items2 D hc MT F n (fresh2 q) c = norm q l /\
+  drain_items2 D hc MT F n (fresh2 q) c = l /\
   drain2 D hc MT F n (fresh2 q) c = nodes_of l /\
-  iterate2 D hc MT F n (fresh2 q) c = nodes_of l.
+  iterate_items2 D hc MT F n (fresh2 q) c = l.
 Proof.
-  intros q Q c l F n HC HS HF Hn. pose proof (lsel2_sel q Q HC c l HS) as El.
-  assert (Hn' : List.length (LSEL q c) < n).
-  { rewrite El. unfold norm. destruct (fol_doc q); [rewrite map_length|]; exact Hn. }
-  unfold drain2, iterate2.
-  rewrite (drain_items2_lsel2 D hc MT q c F n HF Hn'), (iterate_items2_lsel2 D hc MT q c F n HF Hn').
-  rewrite El. split; [reflexivity|]. split; apply nodes_of_norm.
+  intros q Q c l F n HC HS HF Hn. pose proof (lsel2_sel q Q HC c l HS) as El. subst l.
+  unfold drain2.
+  rewrite (drain_items2_lsel2 D hc MT q c F n HF Hn), (iterate_items2_lsel2 D hc MT q c F n HF Hn).
+  repeat split; reflexivity.
 Qed.
 
 (* full runs: end with nil (not Stuck); Select leaves t.Current() alone *)
 Corollary m1_run2 : forall q Q c l F n,
   corr2 q Q -> SEL Q c = Val l -> need2 D hc MT q c <= F -> List.length l < n ->
-  exists st', run2 D hc MT F n (fresh2 q) c = (norm q l, E_nil, st', c).
+  exists st', run2 D hc MT F n (fresh2 q) c = (l, E_nil, st', c).
 Proof.
-  intros q Q c l F n HC HS HF Hn. pose proof (lsel2_sel q Q HC c l HS) as El.
-  assert (Hn' : List.length (LSEL q c) < n).
-  { rewrite El. unfold norm. destruct (fol_doc q); [rewrite map_length|]; exact Hn. }
-  destruct (run2_fresh D hc MT q c F n HF Hn') as (st' & E & _). exists st'. rewrite <- El. exact E.
+  intros q Q c l F n HC HS HF Hn. pose proof (lsel2_sel q Q HC c l HS) as El. subst l.
+  destruct (run2_fresh D hc MT q c F n HF Hn) as (st' & E & _). exists st'. exact E.
 Qed.
+
+(* compatibility with the statement before Eval.step_following was given level 0:
+   norm used to zero the levels of a top-level following:: step *)
+Definition norm (q : qconfig2) (l : list item) : list item := l.
+Lemma norm_id : forall q l, norm q l = l.
+Proof. reflexivity. Qed.
 
 (** ** the single steps from the context node *)
 Theorem drain_following_sibling : forall t c F n,
@@ -2436,16 +2426,11 @@ Qed.
 
 Theorem drain_following : forall t c F n,
   3 <= F -> List.length (step_following D has_ns t c) < n ->
-  drain_items2 D hc MT F n (fresh2 (C2Following false t C2Context)) c =
-    map zero_lvl (step_following D has_ns t c) /\
-  drain2 D hc MT F n (fresh2 (C2Following false t C2Context)) c = nodes_of (step_following D has_ns t c).
+  drain_items2 D hc MT F n (fresh2 (C2Following false t C2Context)) c = step_following D has_ns t c.
 Proof.
   intros t c F n HF Hn.
-  assert (E : LSEL (C2Following false t C2Context) c = map zero_lvl (step_following D has_ns t c))
-    by apply over_single.
-  unfold drain2. rewrite drain_items2_lsel2;
-    [| cbn [need2 lsel2 List.length]; lia | rewrite E, map_length; exact Hn].
-  rewrite E. split; [reflexivity|apply nodes_of_zero_lvl].
+  assert (E : LSEL (C2Following false t C2Context) c = step_following D has_ns t c) by apply over_single.
+  rewrite drain_items2_lsel2; [exact E | cbn [need2 lsel2 List.length]; lia | rewrite E; exact Hn].
 Qed.
 
 Theorem drain_preceding : forall t c F n,
@@ -2566,11 +2551,9 @@ Example ex_preceding_list :
   SELx (QPreceding false any_t (QAttribute any_t Qdos)) root_node =
   Val (dr (C2Preceding false any_t (C2Attribute any_t dos)) root_node).
 Proof. vm_compute. reflexivity. Qed.
-(* nodes and positions agree with Eval.v, the levels do not (see the summary) *)
 Example ex_following_list :
-  SELx (QFollowing false any_t QContext) n_b <> Val (dr (C2Following false any_t C2Context) n_b) /\
-  omap (map zero_lvl) (SELx (QFollowing false any_t QContext) n_b) = Val (dr (C2Following false any_t C2Context) n_b).
-Proof. split; [vm_compute; discriminate|vm_compute; reflexivity]. Qed.
+  SELx (QFollowing false any_t QContext) n_b = Val (dr (C2Following false any_t C2Context) n_b).
+Proof. vm_compute. reflexivity. Qed.
 
 (* the hypotheses of m1_refines_list2 are satisfiable *)
 Example ex_refines2 :
@@ -2623,16 +2606,25 @@ Example ex_merge_repaired :
   end.
 Proof. vm_compute. split; reflexivity. Qed.
 
-(* ---- Eval.v and the Go code differ for a filter directly over following::
-        (it_lvl of step_following items is the inner descendant depth; Go uses level 0):
-        following::node()[true()][2]  from <b> ---- *)
+(* ---- regression: a filter directly over following:: reads level 0 (followingQuery has
+        no depth() method).  following::node()[true()][2]  from <b>  is [d], in Go, in the
+        cursor model and -- since step_following carries level 0 -- in Eval.sel; with the
+        inner descendant depth as level Eval.sel used to give [k; e] ---- *)
 Definition ptrue := pred_of exD false hc norx (fun _ => 0) (fun _ _ _ => "") (QFn0 FTrue).
 Definition ptwo := pred_of exD false hc norx (fun _ => 0) (fun _ _ _ => "") (QNum (F64.of_Z 2)).
-Example ex_eval_lvl_discrepancy :
-  omap nodes_of (SELx (QFilter false (QFilter false (QFollowing false any_t QContext) (QFn0 FTrue))
-                               (QNum (F64.of_Z 2))) n_b) = Val [n_k; n_e] /\
-  drn (C2Filter false ptwo (C2Filter false ptrue (C2Following false any_t C2Context))) n_b = [n_d].
-Proof. vm_compute. split; reflexivity. Qed.
+Definition Q_fol_2 : query :=
+  QFilter false (QFilter false (QFollowing false any_t QContext) (QFn0 FTrue)) (QNum (F64.of_Z 2)).
+Definition q_fol_2 : qconfig2 :=
+  C2Filter false ptwo (C2Filter false ptrue (C2Following false any_t C2Context)).
+Example ex_eval_lvl_regression :
+  omap nodes_of (SELx Q_fol_2 n_b) = Val [n_d] /\
+  drn q_fol_2 n_b = [n_d] /\
+  SELx Q_fol_2 n_b = Val (dr q_fol_2 n_b) /\
+  corr2 exD false hc norx (fun _ => 0) (fun _ _ _ => "") q_fol_2 Q_fol_2.
+Proof.
+  split; [vm_compute; reflexivity|]. split; [vm_compute; reflexivity|]. split; [vm_compute; reflexivity|].
+  unfold q_fol_2, Q_fol_2, ptwo, ptrue. repeat (apply corr2_pred_of || constructor).
+Qed.
 
 End M2Examples.
 
@@ -2719,9 +2711,9 @@ Print Assumptions anc_dedup_never_stuck.
      Rep_reset2          from every Reset2 state (fresh, cloned, after Evaluate) Select delivers
                          lsel2 q c with position()/depth() after every call; only the first call
                          looks at t.Current()
-     lsel2_sel           lsel2 is Eval.sel, up to [norm] (levels of a following:: step)
-     m1_refines_list2    MAIN: corr2 q Q -> sel Q c = Val l -> drain_items2 (fresh2 q) c = norm q l,
-                         drain2 = iterate2 (NodeIterator.MoveNext driver) = nodes_of l
+     lsel2_sel           lsel2 is Eval.sel (items: node, position, level)
+     m1_refines_list2    MAIN: corr2 q Q -> sel Q c = Val l -> drain_items2 (fresh2 q) c = l,
+                         drain2 = nodes_of l, iterate_items2 (NodeIterator.MoveNext driver) = l
      drain_following_sibling, drain_preceding_sibling, drain_following, drain_preceding
    Protocol (every state, not only reachable ones):
      exhausted_stable2, exhausted_forever2, evaluate_resets2, clone_forgets2,
@@ -2731,14 +2723,13 @@ Print Assumptions anc_dedup_never_stuck.
    anc_dedup_never_stuck, fol_doc_run_never_stuck, pre_doc_run_never_stuck).
 
    Findings (examples in M2Examples):
-     - Eval.v / Go discrepancy: Eval.step_following gives its items the depth of the inner
+     - (fixed in Eval.v) Eval.step_following used to give its items the depth of the inner
        descendant walk as it_lvl, but followingQuery has no depth() method, so
-       getNodeDepth(followingQuery) = 0.  Only a filterQuery DIRECTLY over a following:: step
-       reads it (positmap[level]); there the two disagree on the position counters handed out,
-       visible through a second filter:  following::node()[true()][2]  from <b> gives [k; e] in
-       Eval.sel and [d] in the cursor model (ex_eval_lvl_discrepancy).  Hence corr2_filter
-       demands fol_doc i = false, and the items of a top-level following:: step are compared up
-       to the level ([norm], ex_following_list).
+       getNodeDepth(followingQuery) = 0; a filterQuery directly over a following:: step read
+       the wrong positmap key:  following::node()[true()][2]  from <b> gave [k; e] instead of
+       [d].  step_following now carries level 0 (zero_lvl) and ex_eval_lvl_regression checks
+       Eval.sel = cursor model = [d].  Only descendantQuery has depth(); every other step of
+       Eval.v already had level 0.
      - mergeQuery.Evaluate does not evaluate Child; harmless, Select evaluates it before every use
        (Reset2 says nothing about the child state).
      - without the repair 231c797 mergeQuery.Select leaves t.Current() on the input node
